@@ -39,6 +39,8 @@ def run_demo(wt, i, meta):
     os.remove(os.path.join(wt, "konst", "tests", name + ".rs"))
     m = re.findall(r"test result: (\w+)\. (\d+) passed; (\d+) failed", out)
     if not m:
+        if "(signal:" in out or "SIGSEGV" in out or "SIGABRT" in out:
+            return False, "DEMO PROCESS DIED:\n" + out[-1500:]
         if "error" in out and ("could not compile" in out or "error[E" in out):
             return False, "DEMO DOES NOT COMPILE (const-eval / type error):\n" + out[-1500:]
         return None, out[-2000:]
@@ -47,14 +49,15 @@ def run_demo(wt, i, meta):
 
 
 def main():
-    pid = sys.argv[1]
+    wtname = sys.argv[1]          # e.g. C02 or C02b (second-round worktree of the same property)
+    pid = wtname.rstrip("b")
     args = sys.argv[2:]
     check_ids = [pid]
     if "--check-ids" in args:
         k = args.index("--check-ids")
         check_ids = args[k + 1].split(",")
         args = args[:k] + args[k + 2:]
-    wt = "/tmp/wt/" + pid
+    wt = "/tmp/wt/" + wtname
     outd = os.path.join(wt, "_out")
     idx = args or sorted(re.findall(r"change(\w+)\.diff", " ".join(os.listdir(outd))))
     for i in idx:
